@@ -312,7 +312,7 @@ class Repo:
 
 PURE_MODULES = {"re", "operator", "math", "json", "itertools", "collections", "copy", "errno", "string", "numbers",
                 "posixpath", "functools", "collections.abc", "hashlib", "_hashlib", "_operator", "_json", "json.encoder",
-                "json.decoder", "_collections_abc", "abc", "typing", "types", "_md5", "textwrap", "pprint"}
+                "json.decoder", "_collections_abc", "abc", "typing", "types", "_md5", "textwrap", "pprint", "shlex", "textwrap", "string", "fnmatch"}
 IMPURE_NAMES = {"open", "input", "print", "exec", "eval", "compile", "__import__", "breakpoint", "exit", "quit"}
 PURE_OSPATH = {"join", "dirname", "basename", "split", "splitext", "normpath", "isabs", "commonprefix"}
 
@@ -915,6 +915,11 @@ class Interp:
                         return self.repo.wrap_real(vars(c.real)[name])
                 if isinstance(b, ast.ClassDef) and b.name == name:
                     return self.repo.classes[f"{c.qual}.{name}"]
+        real = o.cls.real
+        if real is not None and all(b is object or isinstance(self.repo.wrap_real(b), RepoClass) for b in real.__mro__[1:]) \
+                and self.find_member(o.cls, "__getattr__") is None and not hasattr(object, name):
+            # every base class is /repo code (or object) and none defines __getattr__: the attribute does not exist
+            raise RaiseSignal(AttributeError(f"'{o.cls.name}' object has no attribute '{name}'"))
         return self.ctx.dep_getattr(self, o, name)
 
     def obj_setattr(self, o, name, v, raw=False):
